@@ -104,6 +104,8 @@ ClearG(k) ==
 Clear(k) == LET g == ClearG(k) IN
   /\ err' = Latch(g) /\ obj' = (IF g = "" THEN Drop(obj, k) ELSE obj) /\ mode' = NoMode
 
-Exit   == mode' = NoMode /\ UNCHANGED <<obj, err>>
+\* `exit` in global configuration mode LEAVES configuration mode: every later command would be refused
+ExitG == IF mode = NoMode THEN "exit in global configuration mode (leaves configuration mode)" ELSE ""
+Exit   == err' = Latch(ExitG) /\ mode' = NoMode /\ UNCHANGED obj
 Resume == mode' = NoMode /\ UNCHANGED <<obj, err>>
 =============================================================================
